@@ -257,7 +257,7 @@ export class Renderer {
         if (!key) return
         const t = this.findTemplate(file, String(key))
         if (!t) return
-        const data = n.data ? X.evalExpr(n.data, env) : ''
+        const data = n.data ? X.evalExpr(n.data, env) : {} // no `data`: the sub-template has no data fields at all
         const env2 = new Env(this.fileScopes(t.file), data)
         for (const c of t.def.children) this.renderNode(c, env2, t.file, out)
         return
